@@ -30,7 +30,8 @@ pub enum Case {
     Seam { compression: bool, sync: SyncMode, history: Vec<TxS>, inflight: TxS },
 }
 
-const LABELS: [&str; 6] = ["append:before-write", "append:after-write", "append:before-reply", "seglog:before-fsync", "sync:after-fsync", "rollover:after-index-swap"];
+// the rollover's own pause points are C15's subject (two of them lie inside the live-index write lock, where readers block)
+const LABELS: [&str; 7] = ["append:before-write", "append:after-write", "append:before-reply", "seglog:before-fsync", "sync:after-fsync", "rollover:after-sync", "rollover:end"];
 
 fn ev(stream: u8, size: Size, bad: Bad) -> EvS {
     EvS { stream, exp: ExpS::Any, size, bad }
